@@ -5,7 +5,8 @@ use std::cell::RefCell;
 
 pub use crate::lib_wasm::{verif_get_metrics as get_metrics, verif_to_config as to_config};
 pub use crate::rewriter::{
-    generate_prefix_stmts, print_js, rewrite_js, verif_parse_js as parse_js, Config,
+    generate_prefix_stmts, print_js, rewrite_js, verif_parse_js as parse_js,
+    verif_parse_js_comments as parse_js_comments, Config,
     OriginalSourceMap, RewrittenOutput,
 };
 pub use crate::util::{file_name, FileReader};
